@@ -1,16 +1,22 @@
 """C45 - profiling and tracing events are balanced and well nested.
 
-Small-scope enumeration of call trees.  One compiled module holds one function of every kind (def, cpdef, cdef,
-method of a Python class, cpdef method of a cdef class, coroutine, generator); each takes a `plan` and invokes its
-children through call-site code inlined in its own body, then returns or raises.  EVERY labelled ordered call tree
-with <= 3 (quick) / <= 4 (thorough, reduced label set on the 4th edge level) call edges is executed, labels =
-(kind, how the parent calls it, exit): plain call / call inside try-except, exit by return / raise, and for
-generators: exhausted by a for loop (return or raise, caught or not), next()+close(), next()+throw() caught by the
-caller, next()+drop.  Each tree runs under sys.setprofile and under sys.settrace on the compiled module (builds:
-profile=True; linetrace=True with -DCYTHON_TRACE=1) and on CPython executing the identical source.
-Oracle: (1) the compiled module's call/return events form a well-nested word (every call matched by exactly one
-return of the same function, LIFO), (2) the (event, function) sequence of call/return events equals CPython's,
-(3) line events carry line numbers inside the source span of their function.
+Small-scope enumeration of call trees.  One compiled module holds one function of every kind: def, cpdef (C-level call),
+cdef, method of a Python class, cpdef method of a cdef class, coroutine, generator, noexcept cdef functions with void
+and with int return (no error value, no exception check: a raised exception is swallowed / unraisable), the cpdef
+function called through its Python wrapper, and a function that returns / raises inside try/finally whose finally
+block makes the child calls.  Each takes a `plan` and invokes its children through call-site code inlined in its own
+body, then returns or raises.  EVERY labelled ordered call tree with <= 3 (quick) / <= 4 (thorough, reduced label set
+on the 4-edge trees) call edges is executed, labels = (kind, how the parent calls it, exit): plain call / call inside
+try-except, exit by return / raise (swallowed for the noexcept kinds), and for generators: exhausted by a for loop
+(return or raise, caught or not), next()+close(), next()+throw() caught by the caller, next()+drop, and `yield from`
+delegation from a generator parent.  Each tree runs under sys.setprofile, under sys.settrace and under BOTH hooks at
+once, on the compiled module (builds: profile=True; linetrace=True with -DCYTHON_TRACE=1) and on CPython executing the
+same source (the two noexcept functions are modelled there as functions that catch their own exception and return).
+Oracle, per recorded stream (profile stream, trace stream): (1) the compiled module's call/return events form a
+well-nested word (every call matched by exactly one return of the same function, LIFO), (2) the (event, function)
+sequence of call/return events equals CPython's under the same hooks (not for trees with a yield-from edge, see
+check_plan), (3) line events carry line numbers inside the source span of their function; (4) the tree's result is the
+same (tracing must not change behaviour).
 """
 import sys, os, itertools
 from vlib import farm, runner
@@ -19,13 +25,16 @@ from props import _g7_c45 as G
 LEVEL = 'exploration'
 ENGINE = 'E2 diffexplore'
 TECHNIQUE = 'exhaustive enumeration of labelled call trees (data-driven), compiled vs CPython event streams under setprofile/settrace'
-LEVEL_TEXT = ('Every ordered call tree with <= 3 call edges (quick; <= 4 thorough) over 24 node labels (7 function kinds x call '
-              'mode x exit incl. generator exhaustion / close / throw / drop) is run under sys.setprofile and sys.settrace on '
-              'the compiled module (profile=True build and linetrace=True + CYTHON_TRACE=1 build) and on CPython; call/return '
-              'events must be well nested and equal to CPython\'s, line events must lie inside the function.')
+LEVEL_TEXT = ('Every ordered call tree with <= 3 call edges (quick; <= 4 thorough) over 36 node labels (11 function kinds incl. '
+              'noexcept cdef void/int, cpdef through its Python wrapper, return inside try/finally; x call mode x exit incl. '
+              'swallowed exceptions, generator exhaustion / close / throw / drop / yield-from) is run under sys.setprofile, '
+              'sys.settrace and both together on the compiled module (profile=True build and linetrace=True + CYTHON_TRACE=1 '
+              'build) and on CPython; every recorded stream must be well nested and equal to CPython\'s, line events must lie '
+              'inside the function, results must be unchanged.')
 LEVEL_NOTE = ('Trees are data interpreted by one generic function per kind (the call sites and exit paths are real generated code, '
               'but a function specialised to one exit is not generated).  exception/line event SEQUENCES are not compared with '
-              'CPython (only line spans); c_call/c_return/c_exception events are filtered.  Python 3.12: legacy '
+              'CPython (only line spans); c_call/c_return/c_exception events are filtered; trees with a yield-from edge are checked '
+              'for balance only (a delegating compiled generator is not re-entered, CPython re-enters the outer frame).  Python 3.12: legacy '
               'c_profilefunc/c_tracefunc path (CYTHON_USE_SYS_MONITORING off).  Trusted: CPython event stream as reference.')
 
 FILE = 'c45mod.py'
@@ -33,7 +42,7 @@ _S = {}
 
 
 def builds(ctx):
-    src = G.module_source()
+    src = G.module_source()          # _setup derives the CPython text (G.module_source(ref=True)) itself
     jobs = [dict(name='c45mod', source=src, workdir=ctx.workdir('prof'), ext='.py', directives={'profile': True}),
             dict(name='c45mod', source=src, workdir=ctx.workdir('trace'), ext='.py', directives={'linetrace': True},
                  cflags=('-DCYTHON_TRACE=1',))]
@@ -54,7 +63,8 @@ def _setup(so_prof, so_trace, src):
         loader.exec_module(m)
         mods[tag] = m
     ref = types.ModuleType('c45ref')
-    exec(compile(src, FILE, 'exec'), ref.__dict__)
+    exec(compile(G.module_source(ref=True), FILE, 'exec'), ref.__dict__)
+    sys.unraisablehook = lambda u: None         # exceptions swallowed by the noexcept cdef functions
     _S['mods'] = mods
     _S['ref'] = ref
     _S['spans'] = G.spans(src)
@@ -62,40 +72,38 @@ def _setup(so_prof, so_trace, src):
 
 
 def record(mod, plan, hook):
-    """Run mod.root(plan) under sys.setprofile / sys.settrace; events of this module's functions only."""
-    ev = []
-    ap = ev.append
+    """Run mod.root(plan) under sys.setprofile ('profile'), sys.settrace ('trace') or both at once ('both');
+    returns (result, profile events, trace events) restricted to this module's functions."""
+    pev = []
+    tev = []
+    pap = pev.append
+    tap = tev.append
 
     def prof(frame, event, arg):
         if event == 'call' or event == 'return':
             co = frame.f_code
             if co.co_filename.endswith(FILE):
-                ap((event, co.co_name.rsplit('.', 1)[-1], frame.f_lineno))
+                pap((event, co.co_name.rsplit('.', 1)[-1], frame.f_lineno))
 
     def tr(frame, event, arg):
         co = frame.f_code
         if co.co_filename.endswith(FILE):
-            ap((event, co.co_name.rsplit('.', 1)[-1], frame.f_lineno))
+            tap((event, co.co_name.rsplit('.', 1)[-1], frame.f_lineno))
             return tr
         return None
     res = None
-    if hook == 'profile':
-        sys.setprofile(prof)
-        try:
-            res = mod.root(plan)
-        except BaseException as e:
-            res = type(e).__name__
-        finally:
-            sys.setprofile(None)
-    else:
+    if hook != 'profile':
         sys.settrace(tr)
-        try:
-            res = mod.root(plan)
-        except BaseException as e:
-            res = type(e).__name__
-        finally:
-            sys.settrace(None)
-    return res, ev
+    if hook != 'trace':
+        sys.setprofile(prof)
+    try:
+        res = mod.root(plan)
+    except BaseException as e:
+        res = type(e).__name__
+    finally:
+        sys.setprofile(None)
+        sys.settrace(None)
+    return res, pev, tev
 
 
 def nesting_error(ev):
@@ -109,56 +117,78 @@ def nesting_error(ev):
                 return ('return-without-call ' + _kind_of(name), 'return of %s without call (event %d)' % (name, i))
             top = st.pop()
             if top != name:
-                return ('return-not-innermost ' + _kind_of(name),
-                        'return of %s while %s is the innermost open call (event %d)' % (name, top, i))
+                if name in st:
+                    return ('unclosed ' + _kind_of(top),
+                            'return of %s while %s is the innermost open call and has not returned (event %d)' % (name, top, i))
+                return ('return-without-open-call ' + _kind_of(name),
+                        'return of %s while it is not open (innermost open call: %s) (event %d)' % (name, top, i))
     if st:
         return ('unmatched-call ' + _kind_of(st[-1]), 'unmatched call(s) %s' % st)
     return None
 
 
+def _compare(out, tag, where, iev, rev, spans, equality=True):
+    """Balance / nesting of one compiled event stream, equality of its call/return word with CPython's, line spans."""
+    icr = [(e, n) for e, n, l in iev if e in ('call', 'return')]
+    rcr = [(e, n) for e, n, l in rev if e in ('call', 'return')]
+    bad = nesting_error(iev)
+    if bad:
+        out.append((tag, where, 'unbalanced:' + bad[0], bad[1] + '; compiled %r' % (icr[:40],)))
+    if equality and icr != rcr:
+        j = 0
+        while j < min(len(icr), len(rcr)) and icr[j] == rcr[j]:
+            j += 1
+        exp = rcr[j] if j < len(rcr) else ('end', '')
+        got = icr[j] if j < len(icr) else ('end', '')
+        last = icr[j - 1] if j else ('start', '')
+        if j < len(icr) and (j >= len(rcr) or (j + 1 < len(icr) and icr[j + 1] == rcr[j])):
+            cls = 'extra %s %s' % (got[0], _kind_of(got[1]))
+        elif j >= len(icr):
+            cls = 'ends-early after %s %s' % (last[0], _kind_of(last[1]))
+        elif j + 1 < len(rcr) and icr[j] == rcr[j + 1]:
+            cls = 'missing %s %s' % (exp[0], _kind_of(exp[1]))
+        else:
+            cls = 'unexpected %s %s' % (got[0], _kind_of(got[1]))
+        out.append((tag, where, 'sequence:' + cls,
+                    'event %d: CPython %r, compiled %r; CPython %r compiled %r' % (j, exp, got, rcr[:40], icr[:40])))
+    for e, n, l in iev:
+        if e == 'line':
+            sp = spans.get(n)
+            if sp is None or not (sp[0] <= l <= sp[1]):
+                out.append((tag, where, 'line-outside:%s' % _kind_of(n), 'line event %d for %s with span %r' % (l, n, sp)))
+                break
+
+
+def _has_yf(plan):
+    return any(ch[1] == G.M_YF or _has_yf(ch[2]) for ch in plan[1])
+
+
 def check_plan(plan):
-    """Returns list of (config, hook, class, detail) problems for one plan."""
+    """Returns list of (build, hook[:stream], class, detail) problems for one plan."""
     out = []
     ref = _S['ref']
     spans = _S['spans']
-    for hook in ('profile', 'trace'):
-        rres, rev = record(ref, plan, hook)
-        rcr = [(e, n) for e, n, l in rev if e in ('call', 'return')]
+    # While a compiled generator delegates with `yield from`, its own body is not re-entered (Coroutine.c forwards to the
+    # delegate), so it produces no resume/suspend events; CPython re-enters the outer frame on every step.  Both words
+    # are well nested: trees with a yield-from edge are checked for balance / nesting / line spans only.
+    eq = not _has_yf(plan)
+    for hook in ('profile', 'trace', 'both'):
+        rres, rpev, rtev = record(ref, plan, hook)
         for tag, mod in _S['mods'].items():
-            ires, iev = record(mod, plan, hook)
             if hook == 'trace' and tag == 'prof':
-                continue        # the profile build does not support line tracing: nothing to compare under settrace
-            icr = [(e, n) for e, n, l in iev if e in ('call', 'return')]
+                continue        # the profile build does not support line tracing: nothing to compare under settrace alone
+            ires, ipev, itev = record(mod, plan, hook)
             if ires != rres:
                 out.append((tag, hook, 'result', 'root returned %r, CPython %r' % (ires, rres)))
-            bad = nesting_error(iev)
-            if bad:
-                out.append((tag, hook, 'unbalanced:' + bad[0], bad[1]))
-            if icr != rcr:
-                j = 0
-                while j < min(len(icr), len(rcr)) and icr[j] == rcr[j]:
-                    j += 1
-                exp = rcr[j] if j < len(rcr) else ('end', '')
-                got = icr[j] if j < len(icr) else ('end', '')
-                if j >= len(icr) or (j + 1 < len(rcr) and icr[j] == rcr[j + 1]):
-                    cls = 'missing %s %s' % (exp[0], _kind_of(exp[1]))
-                elif j >= len(rcr) or (j + 1 < len(icr) and icr[j + 1] == rcr[j]):
-                    cls = 'extra %s %s' % (got[0], _kind_of(got[1]))
-                else:
-                    cls = 'differs %s %s->%s %s' % (exp[0], _kind_of(exp[1]), got[0], _kind_of(got[1]))
-                out.append((tag, hook, 'sequence:' + cls,
-                            'event %d: CPython %r, compiled %r; CPython %r compiled %r' % (j, exp, got, rcr[:40], icr[:40])))
-            for e, n, l in iev:
-                if e == 'line':
-                    sp = spans.get(n)
-                    if sp is None or not (sp[0] <= l <= sp[1]):
-                        out.append((tag, hook, 'line-outside:%s' % _kind_of(n), 'line event %d for %s with span %r' % (l, n, sp)))
-                        break
+            if hook != 'trace':
+                _compare(out, tag, hook if hook == 'profile' else 'both:profile', ipev, rpev, spans, eq)
+            if hook != 'profile' and tag == 'trace':
+                _compare(out, tag, hook if hook == 'trace' else 'both:trace', itev, rtev, spans, eq)
     return out
 
 
 NAME_KIND = {'f_def': 'def', 'f_cpdef': 'cpdef', 'f_cdef': 'cdef', 'meth': 'meth', 'cmeth': 'cmeth', 'f_coro': 'coro',
-             'f_gen': 'gen', 'root': 'root', '': ''}
+             'f_gen': 'gen', 'f_nxvoid': 'nxvoid', 'f_nxint': 'nxint', 'f_finret': 'finret', 'root': 'root', '': ''}
 
 
 def _kind_of(name):
@@ -171,7 +201,7 @@ def plans_for(tier):
     if tier == 'quick':
         return G.all_plans(3, labs), 'all trees with <= 3 edges over %d labels' % len(labs)
     small = [l for l in labs if l[0] in (0, 2, 5, G.K_GEN)]     # def, cdef, coroutine, generator on 4-edge trees
-    gen = itertools.chain(G.all_plans(3, labs), (p for p in G.all_plans(4, small) if G.count_edges(p) == 4))
+    gen = itertools.chain(G.all_plans(3, labs), G.all_plans(4, small, min_edges=4))
     return gen, ('all trees with <= 3 edges over %d labels + all 4-edge trees over %d labels (def, cdef, coroutine, '
                  'generator)' % (len(labs), len(small)))
 
@@ -179,8 +209,9 @@ def plans_for(tier):
 def _job(state, case):
     """case = (tier, shard, nshards): run every tree whose index is congruent to shard."""
     tier, shard, nshards = case
-    nev = n = 0
-    problems = []
+    nev = n = nprob = 0
+    best = {}        # class -> smallest failing tree of this shard (every class is kept, no cap)
+    where_ = {}
     sigs = set()
     first = None
     for idx, plan in enumerate(plans_for(tier)[0]):
@@ -189,15 +220,17 @@ def _job(state, case):
         if first is None:
             first = plan
         n += 1
-        for p in check_plan(plan):
-            if len(problems) < 400:
-                problems.append((plan, p))
-            nev += 0
+        for (tag, hook, cls, detail) in check_plan(plan):
+            nprob += 1
+            cur = best.get(cls)
+            where_.setdefault(cls, set()).add(tag + '/' + hook)
+            if cur is None or (G.count_edges(plan), repr(plan)) < (G.count_edges(cur[0]), repr(cur[0])):
+                best[cls] = (plan, detail, tag, hook)
         # distinct non-trivial cases: the CPython call/return word of the plan under setprofile
-        r, ev = record(_S['ref'], plan, 'profile')
+        r, ev, _t = record(_S['ref'], plan, 'profile')
         sigs.add(hash(tuple((e, n_) for e, n_, l in ev)))
         nev += len(ev)
-    return {'n': n, 'problems': problems, 'nproblems': len(problems), 'sigs': sigs, 'events': nev, 'first': first}
+    return {'n': n, 'best': best, 'where': where_, 'nproblems': nprob, 'sigs': sigs, 'events': nev, 'first': first}
 
 
 # ---------------------------------------------------------------------------- minimisation of a failing tree
@@ -275,25 +308,38 @@ def run(ctx):
         total += v['n']; events += v['events']; nprob += v['nproblems']
         sigs |= v['sigs']
         firsts[i] = v['first']
-        for plan, (tag, hook, cls, detail) in v['problems']:
-            where.setdefault(cls, set()).add(tag + '/' + hook)
-            k = cls
+        for cls, w in v['where'].items():
+            where.setdefault(cls, set()).update(w)
+        for k, (plan, detail, tag, hook) in v['best'].items():
             if k not in raw or (G.count_edges(plan), repr(plan)) < (G.count_edges(raw[k][0]), repr(raw[k][0])):
                 raw[k] = (plan, detail, tag, hook)
     if raw:
         items = sorted(raw.items())
-        mins = runner.run_cases(_minimise_job, [(plan, (tag, hook, cls)) for cls, (plan, d, tag, hook) in items], setup=_setup,
-                                setup_args=(bp.so, bt.so, src), timeout=900)
-        allpairs = {'prof/profile', 'trace/profile', 'trace/trace'}
-        for (cls, (plan, detail, tag, hook)), m in zip(items, mins):
+        # one defect of the generic event emission shows up once per function kind: >= 4 kinds with the same class collapse
+        fam = {}
+        for cls, v in items:
+            head, _, kind = cls.rpartition(' ')
+            fam.setdefault(head, []).append((cls, v, kind))
+        items2 = []
+        for head, members in sorted(fam.items()):
+            if head and len(members) >= 4:
+                cls0, v0, _k = min(members, key=lambda m: (G.count_edges(m[1][0]), repr(m[1][0])))
+                where[head + ' *'] = set().union(*(where[m[0]] for m in members))
+                items2.append((head + ' *', v0, cls0))
+            else:
+                items2.extend((m[0], m[1], m[0]) for m in members)
+        allpairs = {'prof/profile', 'trace/profile', 'trace/trace', 'prof/both:profile', 'trace/both:profile', 'trace/both:trace'}
+        mins = runner.run_cases(_minimise_job, [(plan, (tag, hook, rcls)) for cls, (plan, d, tag, hook), rcls in items2],
+                                setup=_setup, setup_args=(bp.so, bt.so, src), timeout=900)
+        for (cls, (plan, detail, tag, hook), rcls), m in zip(items2, mins):
             if m[0] == 'ok':
                 plan, detail = m[1][0], m[1][1] or detail
             w = 'all' if where[cls] == allpairs else '+'.join(sorted(where[cls]))
             key = '%s|%s|%s' % (w, G.describe(plan), cls)
-            ctx.violation(key, detail[:600], {'plan': repr(plan), 'build': tag, 'hook': hook, 'class': cls})
-    cov = {'evaluations': total * 6, 'distinct_nontrivial': len(sigs),
+            ctx.violation(key, detail[:600], {'plan': repr(plan), 'build': tag, 'hook': hook, 'class': rcls})
+    cov = {'evaluations': total * 9, 'distinct_nontrivial': len(sigs),
            'rule': 'a tree counts once per distinct CPython call/return event word under setprofile (trees producing the same '
-                   'event word collapse); evaluations = trees x (2 hooks x CPython + 3 compiled build/hook pairs + 1 signature run)',
+                   'event word collapse); evaluations = trees x (3 hook configurations x CPython + 5 compiled build/hook-configuration pairs + 1 signature run)',
            'trees': total, 'bound': bound, 'labels': len(labs), 'events_seen': events, 'raw_problems': nprob,
            'raw_problem_classes': len(raw), 'reach': reach,
            'reach_gaps': [t + ':' + k for t, d in reach.items() for k, ok in d.items() if not ok and not (t == 'prof' and k == '__Pyx_TraceLine')],
